@@ -693,7 +693,43 @@ func (f *Frame) syncCall(bi *BInfo, fn *ssa.Function, args []T, argVals []ssa.Va
 
 func (f *Frame) lockAccess(bi *BInfo, l *Loc, write bool) {}
 
-func (f *Frame) selectHook(bi *BInfo, x *ssa.Select, idx string) {}
+// Context-freshness ghost (C17): `ctxfresh` is true iff the context was observed NOT done by a
+// non-blocking select and no blocking wait happened since. A blocking select clears it (the
+// context may be cancelled while waiting, and choosing another ready case says nothing about
+// ctx.Done()). Choosing the Done case is recorded in `ctxdone`.
+const ctxFreshArr = "G:ghost:engine.ctxfresh"
+const ctxDoneArr = "G:ghost:engine.ctxdone"
+
+func isDoneChan(v ssa.Value) bool {
+	c, ok := v.(*ssa.Call)
+	if !ok {
+		return false
+	}
+	cc := c.Common()
+	return cc.IsInvoke() && cc.Method.Name() == "Done"
+}
+
+func (f *Frame) selectHook(bi *BInfo, x *ssa.Select, idx string) {
+	g := f.g
+	st := bi.out
+	doneIdx := -1
+	for i, s := range x.States {
+		if isDoneChan(s.Chan) {
+			doneIdx = i
+		}
+	}
+	fresh := g.arr(st, ctxFreshArr, "Bool")
+	done := g.arr(st, ctxDoneArr, "Bool")
+	if x.Blocking {
+		g.setArr(st, ctxFreshArr, "Bool", sto(fresh, "0", "false"))
+	} else if doneIdx >= 0 {
+		// default branch taken <=> the context was not done at this instant
+		g.setArr(st, ctxFreshArr, "Bool", sto(fresh, "0", sEq(idx, "(- 1)")))
+	}
+	if doneIdx >= 0 {
+		g.setArr(st, ctxDoneArr, "Bool", sto(done, "0", sOr(sel(done, "0"), sEq(idx, fmt.Sprint(doneIdx)))))
+	}
+}
 func (f *Frame) sendHook(bi *BInfo, x *ssa.Send)                 {}
 
 // funcValueHook: a call through a function-typed struct field that has a `func Type.field`
